@@ -30,7 +30,7 @@ N_QUICK, N_THOROUGH = 28, 400
 N_SEARCH = 72   # size of the extra oracle search after a broken obligation/correspondence (real threaded runs are slow)
 PARALLEL = 8
 SHARD = 20
-RUN_TIMEOUT = 90
+RUN_TIMEOUT = 60
 FINDING = "C21-orchestrator-start-foreign-thread"
 RULE = ("real thread-mode runs (modes: plain; poke = a foreign thread calls end_metrics / current_solution / "
         "current_global_cost / replication_metrics / stop_agents(grace 0..0.2 s) / wait_ready during the run; "
@@ -157,7 +157,7 @@ def _real(case):
         orch.deploy_computations()
         if case.get("resilient"):
             orch.start_replication(case["k"])
-            orch.wait_ready()
+            res["replication_ready"] = orch.mgt.ready_to_run.wait(30)   # bounded, unlike wait_ready()
         if mode == "poke":
             threading.Thread(target=poker, name="c21-user", daemon=True).start()
         orch.run(timeout=0.6 if mode == "timeout" else RUN_TIMEOUT)
@@ -179,7 +179,11 @@ def _real(case):
 
 
 def run_impl(case):
-    return rt.run_isolated(_real, case, hard_timeout=RUN_TIMEOUT + 60)
+    # the resilient runtime very rarely hangs for good (about 1 run in 400 under load: an agent
+    # never unregisters and Orchestrator.run waits without limit); that is not a statement about
+    # thread identity, so a run that hit the hard limit is repeated once and only a repeated
+    # failure is reported (the first one stays visible as 'first_error' / in the histogram)
+    return rt.run_isolated(_real, case, hard_timeout=RUN_TIMEOUT + 30, retries=1)
 
 
 # ------------------------------------------------------------------ oracle
@@ -300,6 +304,8 @@ def histogram(cases, obs):
         k = "%s/%s/%s/%s%s" % (c["algo"], c["dist"], c["collect"], c.get("mode", "plain"),
                                "/resilient" if c.get("resilient") else "")
         h[k] = h.get(k, 0) + 1
+        if o.get("first_error"):
+            h["retried/" + o["first_error"]] = h.get("retried/" + o["first_error"], 0) + 1
         if "error" in o:
             h["error/" + o["error"]] = h.get("error/" + o["error"], 0) + 1
             continue
